@@ -57,6 +57,41 @@ pub fn run() {
                 }
                 None => "none".to_string(),
             },
+            // dmat <cie76|ciede2000> <hex colour string>...: the integer keys (distance x 1000 truncated
+            // to i32) of rearrange_sequence between every two of the colours, row by row
+            ["dmat", metric, cols @ ..] => {
+                let parsed: Option<Vec<Color>> = cols.iter().map(|t| unhex(t).and_then(|b| String::from_utf8(b).ok()).and_then(|s| parse_color(&s))).collect();
+                match parsed {
+                    Some(cs) => {
+                        let mut v = vec![];
+                        for a in &cs {
+                            for b in &cs {
+                                let d = if *metric == "cie76" { a.distance_delta_e_cie76(b) } else { a.distance_delta_e_ciede2000(b) };
+                                v.push(((d * 1000.0) as i32).to_string());
+                            }
+                        }
+                        format!("ok {}", v.join(","))
+                    }
+                    None => "none".to_string(),
+                }
+            }
+            // closepairs <threshold>: pairs of named colours (different RGB) closer than the threshold
+            ["closepairs", thr] => {
+                let thr: f64 = thr.parse().unwrap_or(2.0);
+                let t = &pastel::named::NAMED_COLORS;
+                let mut v: Vec<(f64, String)> = vec![];
+                for i in 0..t.len() {
+                    for j in (i + 1)..t.len() {
+                        let d = t[i].color.distance_delta_e_ciede2000(&t[j].color);
+                        if t[i].color.to_rgba() != t[j].color.to_rgba() && d < thr {
+                            let (a, b) = (t[i].color.to_rgba(), t[j].color.to_rgba());
+                            v.push((d, format!("{}:{}:{}:{}:{}:{}", a.r, a.g, a.b, b.r, b.g, b.b)));
+                        }
+                    }
+                }
+                v.sort_by(|x, y| x.0.partial_cmp(&y.0).unwrap_or(std::cmp::Ordering::Equal));
+                format!("ok {}", v.iter().map(|x| x.1.clone()).collect::<Vec<_>>().join(","))
+            }
             // consts: the named constructor functions of `Color` and what they return
             ["consts"] => {
                 let v: Vec<(&str, Color)> = vec![
